@@ -140,33 +140,42 @@ def genRouterTable (sp : PathOracle) (c : Compiled) (rt : Router) : D (List (Map
 /-- a source route: list of (out port, bits) -/
 abbrev Route := Option (List (Nat × Nat))
 
+/-- one hop of a source route: the router `u` leaves through the port that carries its link to `v`; the hop takes
+    `clog2(len(rt.outgoing))` bits of the route word -/
+def hopPort (c : Compiled) (u v : String) : D (Nat × Nat) := do
+  let some e := c.g.findEdge u v | throw (.internal "KeyError edge")
+  let some rt := c.routers.find? (·.name == u) | throw (.internal "route through a non-router")
+  let some p := indexOfLink rt.outgoing (linkOf c.g e) | throw (.internal "ValueError: not in list")
+  pure (p, clog2 rt.outgoing.length)
+
+/-- the hops of a path `[src NI, router₁, …, routerₖ, dst NI]`: one per router -/
+def routePorts (c : Compiled) (path : List String) : D (List (Nat × Nat)) :=
+  (List.range (path.length - 2)).mapM fun i => hopPort c (path.getD (i + 1) "") (path.getD (i + 2) "")
+
+/-- whether `src` needs no route to `dst` (itself, or both of the same pure role) -/
+def noRoute (d : Desc) (src dst : NI) : Bool :=
+  src.name == dst.name || ((epOf d src).isOnlyMgr && (epOf d dst).isOnlyMgr) ||
+    ((epOf d src).isOnlySbr && (epOf d dst).isOnlySbr)
+
+/-- the route of one pair: `none` where none is needed -/
+def routeOf (sp : PathOracle) (d : Desc) (c : Compiled) (src dst : NI) : D Route :=
+  if noRoute d src dst then pure none
+  else do
+    let some path := sp c.g src.name dst.name | throw (.unconnected s!"No path between {src.name} and {dst.name}")
+    let ports ← routePorts c path
+    pure (some ports)
+
+def routeBits : Route → Nat
+  | none => 0
+  | some ports => (ports.map (·.2)).sum
+
 def genRoutes (sp : PathOracle) (d : Desc) (c : Compiled) : D (List (NI × List (NodeId × Route)) × Nat) := do
-  let mut numBits := 0
-  let mut out := []
-  for src in c.nis do
-    let mut routes : List (NodeId × Route) := []
-    for dst in c.nis do
-      let es := epOf d src
-      let ed := epOf d dst
-      if src.name == dst.name || (es.isOnlyMgr && ed.isOnlyMgr) || (es.isOnlySbr && ed.isOnlySbr) then
-        routes := routes ++ [(dst.id, none)]
-      else
-        let some path := sp c.g src.name dst.name | throw (.unconnected s!"No path between {src.name} and {dst.name}")
-        let mut ports : List (Nat × Nat) := []
-        let mut bits := 0
-        for i in List.range (path.length - 2) do
-          let u := path.getD (i + 1) ""
-          let v := path.getD (i + 2) ""
-          let some e := c.g.findEdge u v | throw (.internal "KeyError edge")
-          let some rt := c.routers.find? (·.name == u) | throw (.internal "route through a non-router")
-          let some p := indexOfLink rt.outgoing (linkOf c.g e) | throw (.internal "ValueError: not in list")
-          let nb := clog2 rt.outgoing.length
-          ports := ports ++ [(p, nb)]
-          bits := bits + nb
-        routes := routes ++ [(dst.id, some ports)]
-        numBits := max numBits bits
-    out := out ++ [(src, routes)]
-  pure (out, numBits)
+  let out ← c.nis.mapM fun src => do
+    let routes ← c.nis.mapM fun dst => do
+      let r ← routeOf sp d c src dst
+      pure (dst.id, r)
+    pure (src, routes)
+  pure (out, (out.flatMap fun (_, routes) => routes.map fun (_, r) => routeBits r).foldl max 0)
 
 structure SamRule where
   dest : IdVal
